@@ -671,7 +671,7 @@ func checkPruneParse(c *core.Ctx, r *core.Report) {
 	fn := c.Fn("pkg/segment/query/metadata/metautils", "checkRangeIndexHelper")
 	n := 0
 	for _, ret := range core.Returns(fn) {
-		k, ok := ret.Results[0].(*ssa.Const)
+		k, ok := core.RetResult(ret, 0).(*ssa.Const)
 		if !ok || k.Value == nil || k.Value.String() != "false" {
 			continue
 		}
